@@ -14,7 +14,11 @@ RULE = ("EVSE class x parameters x pilot placed at every decision boundary +- {0
         "or random, with/without a connected EV; the station lives in a real ChargingNetwork + Simulator + Interface "
         "(20% of cases: the id was first registered with another EVSE; 30%: a look-alike sibling station of the same class "
         "with the same min/max is registered first; finite-rate EVSEs are built from a list object that the caller mutates "
-        "afterwards); a newcomer is plugged in through the network around the occupant's nominal departure; "
+        "afterwards; 20%: the EVSE went through to_json/from_json; 30% of the EV-less cases: the whole network did, with "
+        "station T registered before S; limits include 0 (max_rate=0, deadband_end=0) and negative minima; half the cases "
+        "send a second pilot, 30% go through ChargingNetwork.update_pilots, 25% probe a NaN pilot; pilot containers "
+        "float/np.float64/int/np.float32); a newcomer is plugged in through the network around the occupant's nominal "
+        "departure - another session, a deep copy of the occupant, or a fresh EV with the occupant's session id; "
         "non-trivial = distinct (class, params, pilot, has_ev); "
         "cases whose pilot is within 1e-9 of a decision threshold are skipped as float-ambiguous")
 ASSUMPTIONS = ["theorems are over R (exact arithmetic); implementation computes pilot+-atol in doubles",
@@ -108,7 +112,8 @@ class _NullAlg:
 
 
 def run_impl(kind, cur, has_ev, pilot, voltage, period, newcomer_offset=0, rereg=False, sibling=False,
-             variant=0, pilot2=None, via_network=False, ptype=0, nan_probe=False, reload_net=False):
+             variant=0, pilot2=None, via_network=False, ptype=0, nan_probe=False, reload_net=False,
+             newcomer_kind=0):
     from datetime import datetime
     from acnportal.acnsim.models import EV, Battery
     from acnportal.acnsim.models.evse import InvalidRateError, StationOccupiedError
@@ -208,7 +213,17 @@ def run_impl(kind, cur, has_ev, pilot, voltage, period, newcomer_offset=0, rereg
                                  and fin(info.max_pilot[si]) == out["max"] and fin(info.min_pilot[si]) == out["min"]
                                  and [fin(x) for x in info.allowable_pilots[si]] == out["allow"])
     # a newcomer arriving around the occupant's nominal departure, plugged in through the network
-    ev2 = EV(10 + newcomer_offset, 30 + newcomer_offset, 50, "S", "sess2", Battery(100, 0, 100))
+    # newcomer_kind 1: a deep copy of the occupant (what Simulator.get_active_evs hands out), 2: a fresh EV
+    # object carrying the occupant's session id -- an occupied station refuses those as well
+    if ev is not None and newcomer_kind == 1:
+        import copy
+        del ev.charge
+        ev2 = copy.deepcopy(ev)
+    elif ev is not None and newcomer_kind == 2:
+        ev2 = EV(10 + newcomer_offset, 30 + newcomer_offset, 50, "S", "sess", Battery(100, 0, 100))
+    else:
+        ev2 = EV(10 + newcomer_offset, 30 + newcomer_offset, 50, "S", "sess2", Battery(100, 0, 100))
+    occ_before = (ev.energy_delivered, ev._battery._current_charge) if ev else None
     perr = None
     pilot_before = float(evse.current_pilot)
     try:
@@ -219,7 +234,8 @@ def run_impl(kind, cur, has_ev, pilot, voltage, period, newcomer_offset=0, rereg
         perr = type(e).__name__
     out["plugin_err"] = perr
     out["ev_after_plugin"] = None if evse.ev is None else (7 if evse.ev is ev else 99)
-    out["pilot_kept_on_refusal"] = (perr is None) or float(evse.current_pilot) == pilot_before
+    out["pilot_kept_on_refusal"] = (perr is None) or (float(evse.current_pilot) == pilot_before and
+                                                       (ev is None or occ_before == (ev.energy_delivered, ev._battery._current_charge)))
     # the advertised maximum (inf for an unbounded EVSE) must be accepted when the NETWORK applies it
     try:
         col = np.zeros((len(net.station_ids), 1))
@@ -242,14 +258,14 @@ def rand_kind(rng):
     t = rng.random()
     grid = [0, 1, 6, 8, 16, 24, 32, 40, 64]
     if t < 0.3:
-        mn = rng.choice([0, 0, 1, 6, 8, 5.5])
-        mx = rng.choice([16, 32, 32, 40, 80, 6, 8, BIG])
+        mn = rng.choice([0, 0, 1, 6, 8, 5.5, -16, -6.5])
+        mx = rng.choice([16, 32, 32, 40, 80, 6, 8, BIG, 0])
         if rng.random() < 0.9 and mn > mx:
             mn, mx = mx, mn
         return ("C", mn, mx)
     if t < 0.6:
-        de = rng.choice([6, 6, 8, 1, 0.5, 12])
-        mx = rng.choice([16, 32, 32, 40, 80, 6, 8, BIG])
+        de = rng.choice([6, 6, 8, 1, 0.5, 12, 0])
+        mx = rng.choice([16, 32, 32, 40, 80, 6, 8, BIG, 0])
         if rng.random() < 0.9 and de > mx:
             de, mx = mx, de
         return ("D", de, mx)
@@ -296,7 +312,8 @@ def gen_cases(rng, n, tier):
             amb = amb or (pilot2 is not None and any(abs(F(pilot2) - t) < F(1, 10**9) for t in ths))
             nan_probe = rng.random() < 0.25
             reload_net = rng.random() < 0.3
-            impl = run_impl(kind, cur, has_ev, pilot, voltage, period, off, rereg, sibling, variant, pilot2, via_network, ptype, nan_probe, reload_net)
+            newcomer_kind = rng.choice([0, 0, 1, 2])
+            impl = run_impl(kind, cur, has_ev, pilot, voltage, period, off, rereg, sibling, variant, pilot2, via_network, ptype, nan_probe, reload_net, newcomer_kind)
             p2_coq = "None" if pilot2 is None else "(Some %s)" % q(pilot2)
             coq = ("{| c_kind := %s; c_cur := %s; c_ev := %s; c_pilot := %s; c_voltage := %s; c_period := %s;\n"
                    "   i_accepted := %s; i_error := %s; i_current_pilot := %s; i_charge_calls := %s;\n"
@@ -312,7 +329,7 @@ def gen_cases(rng, n, tier):
                 coq_list([coq_list([q(x) for x in c]) for c in impl.get("charge_calls2", [])]))
             inp = dict(kind=kind, cur=cur, has_ev=has_ev, pilot=pilot, voltage=voltage, period=period, newcomer_offset=off, rereg=rereg, sibling=sibling,
                        variant=variant, pilot2=pilot2, via_network=via_network, ptype=ptype,
-                       nan_probe=nan_probe, reload_net=reload_net)
+                       nan_probe=nan_probe, reload_net=reload_net, newcomer_kind=newcomer_kind)
             cases.append(dict(input=inp, impl=impl, coq=coq, ambiguous=amb, kind="%s/%s" % (kind[0], "ev" if has_ev else "noev"),
                               sig=[kind, pilot, has_ev], nontrivial=True))
     return cases[:n]
@@ -389,5 +406,5 @@ def replay(w):
     kind = tuple(tuple(x) if isinstance(x, list) else x for x in inp["kind"])
     impl = run_impl(kind, inp["cur"], inp["has_ev"], inp["pilot"], inp["voltage"], inp["period"], inp.get("newcomer_offset", 0), inp.get("rereg", False), inp.get("sibling", False),
                     inp.get("variant", 0), inp.get("pilot2"), inp.get("via_network", False), inp.get("ptype", 0),
-                    inp.get("nan_probe", False), inp.get("reload_net", False))
+                    inp.get("nan_probe", False), inp.get("reload_net", False), inp.get("newcomer_kind", 0))
     return monitor(dict(input=dict(inp, kind=kind), impl=impl))
